@@ -226,7 +226,7 @@ impl Request {
     ) -> Result<Option<()>, crate::Response> {
         use crate::Response;
 
-        let read_size = match stream.read(&mut *self.__buf__).await {
+        let mut read_size = match stream.read(&mut *self.__buf__).await {
             Ok (0) => return Ok(None),
             Err(e) => return match e.kind() {
                 std::io::ErrorKind::ConnectionReset => Ok(None),
@@ -237,6 +237,14 @@ impl Request {
             },
             Ok (n) => n
         };
+        /* the head may arrive in several segments: read on until its end is in the buffer */
+        while read_size < BUF_SIZE && !self.__buf__[..read_size].windows(4).any(|w| w == b"\r\n\r\n") {
+            match stream.read(&mut self.__buf__[read_size..]).await {
+                Ok (0) => break,
+                Err(_) => return Ok(None),
+                Ok (n) => read_size += n
+            }
+        }
 
         let mut r = Reader::new(unsafe {
             // pass detouched bytes
